@@ -214,10 +214,13 @@ class MultipartDecoder:
 
         elif self.state == State.DATA_START:
             data, del_index, more_data = self._parse_data(self.buffer, start=True)
-            del self.buffer[:del_index]
-            event = Data(data=data, more_data=more_data)
-            if more_data:
-                self.state = State.DATA
+            # Nothing is consumed while the line break that starts the body
+            # may still turn out to start the next boundary.
+            if del_index > 0:
+                del self.buffer[:del_index]
+                event = Data(data=data, more_data=more_data)
+                if more_data:
+                    self.state = State.DATA
 
         elif self.state == State.DATA:
             data, del_index, more_data = self._parse_data(self.buffer, start=False)
@@ -263,7 +266,7 @@ class MultipartDecoder:
             # a partial boundary at the end. As the boundary
             # starts with either a nl or cr find the earliest and
             # return up to that as data.
-            data_end = del_index = self.last_newline(data[data_start:]) + data_start
+            data_end = del_index = self.last_newline(data)
             # If amount of data after last newline is far from
             # possible length of partial boundary, we should
             # assume that there is no partial boundary in the buffer
@@ -281,8 +284,13 @@ class MultipartDecoder:
                 data_end = match.start()
                 del_index = match.end()
             else:
-                data_end = del_index = self.last_newline(data[data_start:]) + data_start
+                data_end = del_index = self.last_newline(data)
             more_data = match is None
+
+        if del_index < data_start:
+            # Only the line break that starts the body is left, and it may be
+            # the start of a boundary: wait for more data.
+            return b"", 0, True
 
         return bytes(data[data_start:data_end]), del_index, more_data
 
